@@ -1,0 +1,9 @@
+//go:build !verif
+
+package tools
+
+import "io"
+
+func VerifPoint(name string) {}
+
+func verifWrapWriter(w io.Writer) io.Writer { return w }
